@@ -472,7 +472,7 @@ def meta_from_lines(lines):
 
 
 REG = dict(category="exploration",
-           text="Runtime monitor of the evdns query builder and search list: thousands (quick) / 3e5 (thorough) resolve calls with names from a "
+           text="Runtime monitor of the evdns query builder and search list: 6.4e3 (quick) / 3.2e5 (thorough) resolve calls with names from a "
                 "grammar (empty labels, leading/trailing dots, 63/64-byte labels, 253-257-byte and longer names, backslashes, 8-bit and control "
                 "bytes), search lists of 0-4 domains set through the API or a resolv.conf search line, ndots 0-3, DNS_QUERY_NO_SEARCH, "
                 "edns-udp-size, randomize-case, UDP and TCP; every datagram/TCP frame the fake nameserver receives is decoded by an independent "
